@@ -597,8 +597,8 @@ func (k *checker) keyFor(repo *git.Repository, dir string, rq request, d differe
 func run(c *vf.Ctx) {
 	g := gitx.New(c.Scratch)
 	k := &checker{c: c, g: g, kc: map[string]string{}}
-	nRepos := c.N(12, 120)
-	perRepo := c.N(16, 25)
+	nRepos := c.N(12, 60)
+	perRepo := c.N(16, 20)
 	var repMu sync.Mutex
 	reported := map[string]int{}
 	vf.Parallel(nRepos, 6, func(i int) {
@@ -606,14 +606,28 @@ func run(c *vf.Ctx) {
 		rc := genRepo(r, i)
 		dir := c.TempDir(fmt.Sprintf("repo%d", i))
 		defer os.RemoveAll(dir)
-		c.Must(g.Init(dir, true, "sha1"), "git init")
-		ids, err := g.Import(dir, rc.h)
-		c.Must(err, "fast-import")
+		if err := g.Init(dir, true, "sha1"); err != nil {
+			c.Broken("git init: %v", err)
+			return
+		}
+		gi := gitx.New(c.TempDir("githome"))
+		gi.Env = g.Env
+		ids, err := gi.Import(dir, rc.h)
+		if err != nil {
+			c.Broken("fast-import: %v", err)
+			return
+		}
 		tip := ids[rc.h.Branches["master"]]
 		treeID, err := g.MustOut(dir, "rev-parse", tip+"^{tree}")
-		c.Must(err, "rev-parse")
+		if err != nil {
+			c.Broken("rev-parse: %v", err)
+			return
+		}
 		repo, err := git.PlainOpen(dir)
-		c.Must(err, "PlainOpen")
+		if err != nil {
+			c.Broken("PlainOpen: %v", err)
+			return
+		}
 		commitOf := map[string]string{treeID: tip, "master": tip, "refs/heads/master": tip, "HEAD": tip, "light": tip, "annot": tip}
 		if di, ok := rc.h.Branches["dev"]; ok {
 			commitOf["dev"] = ids[di]
@@ -660,8 +674,8 @@ func run(c *vf.Ctx) {
 		}
 	})
 	c.Extra("git_invocations", gitx.Calls.Load())
-	c.Floor("requests compared", c.Counter("requests_compared"), c.N(150, 2400))
-	c.Floor("entries compared", c.Counter("entries_compared"), c.N(800, 12000))
+	c.Floor("requests compared", c.Counter("requests_compared"), c.N(150, 1000))
+	c.Floor("entries compared", c.Counter("entries_compared"), c.N(800, 5000))
 	c.Floor("formats", c.SeenCount("formats"), 4)
 	c.Floor("tree-ish kinds", c.SeenCount("treeish_kinds"), 8)
 	c.Floor("filter kinds", c.SeenCount("filter_kinds"), 6)
